@@ -118,6 +118,10 @@ def explore(ctx, depth):
         for case in cases:
             if case.doc is None:
                 continue
+            # an absolute reference that does not pass through the library: the Lean specification of dumps(loads(text)) for two option sets
+            from kernpy.core.tokenizers import Encoding
+            ref = docrun.model_exports(ctx, [case], [[{'cats': docrun.ALLC, 'enc': 'kern'}, {'cats': docrun.ALLC, 'enc': 'ekern'}]])[0]
+            refs = list(zip(('kern', 'ekern'), ref.get('spec') or [])) if ref.get('wf') else []
             for h in range(2 if depth == 'quick' else 3):
                 ops = make_ops(rng, case, tmpdir)
                 doc = kp.loads(case.text)[0]
@@ -173,6 +177,18 @@ def explore(ctx, depth):
                                      'a call gives another result when it is repeated after other read-only calls (on the same document or on a fresh import)',
                                      impl=_clip(again if again != firsts[k] else again_fresh), expected=_clip(firsts[k]))
                             break
+                # after the history the plain exports are still what the specification says (state that lives in the library - caches, shared
+                # option objects - is invisible to comparisons between two documents of the same process)
+                for enc, want in refs:
+                    if want is None:
+                        continue
+                    now = call(lambda: kp.dumps(doc, encoding=Encoding(enc)))
+                    ctx.seen({'text': case.text, 'history': list(hist), 'clause': 'export after the history', 'enc': enc}, True)
+                    if now != want:
+                        ctx.fail({'text': case.text, 'history': list(hist), 'encoding': enc, 'clause': 'export after the history = specification'},
+                                 'after a history of read-only calls the plain export is no longer what the specification of dumps(loads(text)) says',
+                                 impl=_clip(now), expected=_clip(want))
+                        break
                 ctx.count('histories')
             # two imports are indistinguishable
             a, b = kp.loads(case.text)[0], kp.loads(case.text)[0]
